@@ -519,10 +519,19 @@ def _mk(base, spec, how):
 
 # ------------------------------------------------------------------------- interpreter
 class XLoop(LoopCtx):
+    """One interpretation of a loop.  Two interpretations of the *same* loop statement (reached on two paths that
+    split before the loop) compare equal: they are alternative executions of one loop, each with its own variable."""
+
     def __init__(self, var, it, node, atoms=None, kind="for"):
         LoopCtx.__init__(self, var, it, node)
         self.atoms = dict(atoms or {})
         self.kind = kind
+
+    def __eq__(self, o):
+        return isinstance(o, LoopCtx) and o.node is self.node
+
+    def __hash__(self):
+        return hash(id(self.node))
 
 
 class XInterp(Interp):
@@ -1087,9 +1096,22 @@ class XInterp(Interp):
         own = [l for l in loops if l not in acc.created_loops]
         if len(own) != 1 or own[0].var is None:
             return None
-        it = own[0].it
-        if isinstance(it, Rng) and it.lo == ZERO and it.step == ONE:
+        if self.position_count(own[0]) is not None:
             return subst(val, {_one_sym(own[0].var): idx})
+        return None
+
+    def position_count(self, loop):
+        """Number of iterations if the loop variable runs over the positions 0, 1, ... in order (``range(n)``,
+        ``enumerate`` / ``zip``, direct iteration over a sequence), else None."""
+        if loop.var is None:
+            return None
+        it = loop.it
+        if isinstance(it, Rng):
+            return it.hi if it.lo == ZERO and it.step == ONE else None
+        if reordered(it) is not None:
+            return None
+        if isinstance(it, (ZipV, ListV, AccList) + NDS):
+            return seq_len(it, self)
         return None
 
     def buf_row(self, buf, idx):
@@ -1104,8 +1126,7 @@ class XInterp(Interp):
         if len(syms) != 1 or v != Lin.sym(syms[0]):
             return None
         lp = [l for l in s.loops if l.var is not None and l.var == v]
-        if len(lp) != 1 or not isinstance(lp[0].it, Rng) or lp[0].it.lo != ZERO or lp[0].it.step != ONE \
-                or lp[0].it.hi != buf.shape[0]:
+        if len(lp) != 1 or self.position_count(lp[0]) is None or self.position_count(lp[0]) != buf.shape[0]:
             return None
         return subst(s.value, {syms[0]: idx})
 
@@ -1412,6 +1433,8 @@ class XInterp(Interp):
         own = [l for l in loops if l not in acc.created_loops]
         if len(own) == 1 and isinstance(own[0].it, Rng) and own[0].it.step == ONE:
             return own[0].it.hi - own[0].it.lo
+        if len(own) == 1 and not isinstance(own[0].it, Rng):
+            return self.position_count(own[0])
         return None
 
     def _type_names(self, node, frame):
